@@ -322,6 +322,8 @@ def main(argv):
         facts, key, secs, cached = extract('dev', use_cache=(tier == 'quick'), repo=REPO)
         res.extra['extraction_s'] = round(secs, 2)
         res.extra['facts_cached'] = cached
+        if getattr(facts, 'field_aliases', None):
+            res.extra['renamed_private_fields_located'] = facts.field_aliases
         spec['fn'](res, facts, tier)
     except FactsError as e:
         res.ob('FACTS', 'extraction/anchors', False, str(e), key='FACTS')
